@@ -304,3 +304,26 @@ def op_brief(op):
     if o:
         d['options'] = o
     return d
+
+
+def eof_trailing_space_case(before_src: str, op: dict) -> bool:
+    """the known-finding class: a statement-level put at the very end of a source that has NO trailing newline, made with a
+    trailing-trivia option that asks for following blank lines ('...+' / '...+N')"""
+    tr = (op.get('options') or {}).get('trivia', True)
+    if isinstance(tr, list):
+        tr = tuple(tr)
+    trail = tr[-1] if isinstance(tr, tuple) and tr else None
+    if not (isinstance(trail, str) and '+' in trail):
+        return False
+    if before_src.endswith('\n'):
+        return False
+    try:
+        n = node_at(ast.parse(before_src), op['path'])
+    except Exception:
+        return False
+    if op['kind'] in ('put_slice_stmts', 'insert_stmt', 'append_stmt', 'prepend_stmt', 'view_set', 'view_del', 'attr_assign', 'attr_del'):
+        v = getattr(n, op.get('field', ''), None)
+        if isinstance(v, list) and v and isinstance(v[-1], ast.AST):
+            n = v[-1]
+    last = len(before_src.split('\n'))
+    return getattr(n, 'end_lineno', None) == last
